@@ -3,8 +3,10 @@
        op = G:<u>:<keyhex>:<mlen>:<hlen>:<ver>:<blen>:<sizes>   plain request (origin would send version ver)
             R:<u>:<keyhex>:<mlen>:<hlen>:<ver>:<blen>:<sizes>   forced refetch
             P:<u>                                               purge
+            U:<u>:<keyhex>:<mlen>:<oldhlen>:<newhlen>           revalidation answered by a 304 that changes the stored
+                                                                header length (Rock::HeaderUpdater / MemStore::updateHeaders)
        sizes = comma separated append sizes or "-"
-     prints one token per op (M:<len>:<adler> | H:<len>:<adler> | F | P), then " | " and for every listed url
+     prints one token per op (M:<len>:<adler> | H:<len>:<adler> | U:<len>:<adler> | F | P), then " | " and for every listed url
      the slot sizes of its chain (u=<n>,<n>,.. or u=-)
    hits.tuples <kind> <keyhex> <mlen> <ver>:<hlen>:<blen>...   store + hit of each version: T <ver>:<len>:<adler>... *)
 let kind_of = function
@@ -18,12 +20,15 @@ let sop_of (s : string) : sop =
   | ["R"; u; key; mlen; hlen; v; blen; sizes] ->
     SReload (n_of_string u, bytes_of_hex key, n_of_string mlen, n_of_string hlen, n_of_string v, n_of_string blen, sizes_of sizes)
   | ["P"; u] -> SPurge (n_of_string u)
+  | ["U"; u; key; mlen; oldh; newh] ->
+    SUpdate (n_of_string u, bytes_of_hex key, n_of_string mlen, n_of_string oldh, n_of_string newh)
   | _ -> failwith "op"
 let sres_str = function
   | RHit (h, l, s) -> "H:" ^ string_of_n l ^ ":" ^ string_of_n s
   | RMiss (l, s) -> "M:" ^ string_of_n l ^ ":" ^ string_of_n s
   | RSwapFail -> "F"
   | RPurged -> "P"
+  | RReval (l, s) -> "U:" ^ string_of_n l ^ ":" ^ string_of_n s
 let rec split_at_slash acc = function
   | "/" :: rest -> (List.rev acc, rest)
   | x :: rest -> split_at_slash (x :: acc) rest
